@@ -393,6 +393,37 @@ func configure(g *gen) {
 			{Callee: "responseText", Stmts: []string{"let %t := env.text %1", "w := %t.1"}, Value: "%t.2", T: T{"opaque", "Bool"}},
 			{Callee: "errors.New", Value: "true", T: T{"opaque", "Bool"}},
 		}})
+	// context_render.go: the response helpers as the sequence of calls they make on the context / on `c.Resp`
+	// (`GoRt.REv`); what the renderer and `io.Copy` return (error or not) are parameters
+	rctx := T{"opaque", "List GoRt.REv"}
+	rkind := T{"opaque", "GoRt.RKind"}
+	errT := T{"opaque", "Bool"}
+	rTypes := map[string]T{"*rux.Context": rctx, "rux.Context": rctx, "render.Renderer": rkind, "any": {"opaque", "Unit"},
+		"io.Reader": {"opaque", "Unit"}, "render.JSONRenderer": rkind, "render.XMLRenderer": rkind, "render.JSONPRenderer": rkind}
+	rExts := []Ext{
+		{Callee: "$.SetStatus", Effect: "$ ++ [GoRt.REv.setStatus %1]"},
+		{Callee: "$.Resp", Value: "()", T: T{"opaque", "Unit"}},
+		{Callee: "$.Req", Value: "()", T: T{"opaque", "Unit"}},
+		{Callee: "$.Resp.WriteHeader", Effect: "$ ++ [GoRt.REv.wh %1]"},
+		{Callee: "$.Resp.Header().Set", Effect: "$ ++ [GoRt.REv.setHeader %1 %2]"},
+		{Callee: "$.WriteBytes", Effect: "$ ++ [GoRt.REv.writeBytes %1]"},
+		{Callee: "$.AddError", Effect: "$ ++ [GoRt.REv.addError]"},
+		{Callee: "renderer.Render", Effect: "$ ++ [GoRt.REv.render renderer]", Value: "(rerr renderer)", T: errT},
+		{Callee: "io.Copy", Effect: "$ ++ [GoRt.REv.copy]", Values: []string{"(0 : Int)", "cerr"}, Ts: []T{tInt, errT}},
+		{Callee: "http.Error", Effect: "$ ++ [GoRt.REv.httpError %2 %3]"},
+		{Callee: "http.Redirect", Effect: "$ ++ [GoRt.REv.redirect %3 %4]"},
+		{Callee: "render.JSONRenderer{}", Value: "GoRt.RKind.json", T: rkind},
+		{Callee: "render.XMLRenderer{}", Value: "(GoRt.RKind.xml %1)", T: rkind},
+		{Callee: "render.JSONPRenderer{}", Value: "(GoRt.RKind.jsonp %1)", T: rkind},
+	}
+	hspec := func(name string) {
+		add(FnSpec{Recv: "Context", Func: name, Lean: "RC." + name, Mutates: true,
+			Extra: []string{"(rerr : GoRt.RKind → Bool)", "(cerr : Bool)"}, Types: rTypes, Exts: rExts})
+	}
+	for _, n := range []string{"ShouldRender", "Respond", "MustRender", "HTTPError", "NoContent", "Redirect", "Blob", "Text", "HTML",
+		"HTMLString", "Stream", "JSON", "JSONBytes", "XML", "JSONP"} {
+		hspec(n)
+	}
 	// pkg/binding: the source decision of `Auto` (which binder reads what); the binders themselves and the two
 	// form parsers are operations whose only modelled effect is to be recorded as the chosen source
 	breq := T{"opaque", "GoRt.BReq"}
